@@ -208,15 +208,19 @@ class _RedisConsumer(ConsumerT):
         force_delayed: bool = False,
     ) -> str | None:
         new_topics = tuple(x + ":" for x in topics)
-        msg_short_name = await self.__fetch_message_name(
-            full_queue_name,
-            new_topics,
-            delayed=delayed,
-            force_delayed=force_delayed,
-        )
-        if msg_short_name is None:
-            return None
         async with self.conn.pipeline(transaction=True) as pipe:
+            # if another consumer changes the queue between picking the name and removing it,
+            # the transaction is discarded - otherwise both consumers would take the same message
+            await pipe.watch(full_queue_name)
+            msg_short_name = await self.__fetch_message_name(
+                full_queue_name,
+                new_topics,
+                delayed=delayed,
+                force_delayed=force_delayed,
+            )
+            if msg_short_name is None:
+                return None
+            pipe.multi()
             # remove message from the queue
             if not delayed:
                 pipe.lrem(full_queue_name, -1, msg_short_name)
